@@ -2,8 +2,8 @@
    Statements only; every proof is `exact <lemma>`.  Quantifier (DESIGN.md): services registered with
    Register* / RegisterFunction*; router handlers (AddHandler) write to the native connection and
    cannot be reached from the HTTP ingresses. *)
-From Coq Require Import List NArith Arith Bool.
-From RPCX Require Import Server.Dispatch Server.Ingress Server.IngressProofs.
+From Coq Require Import List NArith Arith Bool Lia.
+From RPCX Require Import Wire.Bytes Server.Dispatch Server.Ingress Server.IngressProofs Server.Gateway Server.GatewayProofs.
 Import ListNotations.
 
 (* a two-way request that no stage rejects yields, through the HTTP gateway and through JSON-RPC, the
@@ -26,5 +26,94 @@ Theorem C19_malformed_rejected : forall find codec_ok decodable handler hmeta in
   is_result (o_out (serve find codec_ok decodable handler hmeta ing c rq)) = false.
 Proof. exact malformed_rejected. Qed.
 
+(* ---- header level (Server/Gateway.v: HTTPRequest2RpcxRequest, the header checks of handleGatewayRequest, the
+   method split of handleJSONRPCRequest, with strconv.ParseUint / Atoi and url.ParseQuery / QueryEscape modelled) ---- *)
+
+(* "executed with the same service, method, metadata and payload": for every request - every sequence number below
+   2^64, every serialize and compress type, every service path and method (any bytes), every metadata map (any
+   keys and values, any bytes) and every payload - what the gateway builds from the headers a client sends for it is
+   that request. *)
+Theorem C19_gateway_builds_the_request_that_was_sent : forall q url body,
+  wf_greq q -> g_path q <> [] -> g_meth q <> [] ->
+  gateway_front (to_http q) url body =
+  Some (mkGReq (g_seq q) (g_hb q) (g_oneway q) (g_ser q) (g_comp q) (g_meta q) (g_path q) (g_meth q) body).
+Proof. exact gateway_round_trip. Qed.
+
+(* the query-string encoding of metadata is inverted exactly (url.Values.Encode then url.ParseQuery) *)
+Theorem C19_metadata_query_round_trip : forall kvs, Forall wf_kv kvs -> parse_query (encode_query kvs) = (kvs, false).
+Proof. exact parse_query_encode. Qed.
+
+(* malformed gateway requests: a missing method or serialize-type header, no service path in header or URL,
+   an id that is not a decimal number below 2^64, a serialize type that is not an integer, metadata that does
+   not parse - each is rejected before any plugin, authentication or handler sees it *)
+Theorem C19_gateway_rejects_missing_method : forall h url body, h_meth h = [] -> gateway_front h url body = None.
+Proof. exact gateway_rejects_missing_method. Qed.
+Theorem C19_gateway_rejects_missing_serialize_type : forall h url body, h_ser h = [] -> gateway_front h url body = None.
+Proof. exact gateway_rejects_missing_serialize_type. Qed.
+Theorem C19_gateway_rejects_missing_path : forall h url body,
+  h_path h = [] -> trim_slash url = [] -> gateway_front h url body = None.
+Proof. exact gateway_rejects_missing_path. Qed.
+Theorem C19_gateway_rejects_non_numeric_id : forall h url body,
+  h_id h <> [] -> parse_uint64 (h_id h) = None -> gateway_front h url body = None.
+Proof. exact gateway_rejects_bad_id. Qed.
+Theorem C19_an_id_that_parses_is_decimal : forall s v,
+  parse_uint64 s = Some v -> s <> [] /\ forallb is_digit s = true /\ v < 18446744073709551616.
+Proof. exact parse_uint64_only_digits. Qed.
+Theorem C19_gateway_rejects_non_numeric_type : forall h url body,
+  h_ser h <> [] -> atoi (h_ser h) = None -> gateway_front h url body = None.
+Proof. exact gateway_rejects_bad_serialize_type. Qed.
+Theorem C19_gateway_rejects_unparsable_metadata : forall h url body,
+  h_meta h <> [] -> snd (parse_query (h_meta h)) = true -> gateway_front h url body = None.
+Proof. exact gateway_rejects_bad_metadata. Qed.
+
+(* composed with the ingress model: a request the header checks reject runs no handler and yields no result *)
+Theorem C19_header_level_malformed_never_reaches_a_handler :
+  forall find codec_ok decodable handler hmeta c h url body tok q0,
+  gateway_front h url body = None ->
+  let rq := mkIRq tok (match gateway_front h url body with None => true | Some _ => false end) q0 in
+  o_invoked (serve find codec_ok decodable handler hmeta Gateway c rq) = [] /\
+  is_result (o_out (serve find codec_ok decodable handler hmeta Gateway c rq)) = false.
+Proof.
+  intros find codec_ok decodable handler hmeta c h url body tok q0 H. rewrite H.
+  apply malformed_rejected; [discriminate | reflexivity].
+Qed.
+
+(* what is forwarded is what was sent *)
+Theorem C19_gateway_forwards_what_was_sent : forall h url body q,
+  gateway_front h url body = Some q ->
+  g_path q = (match h_path h with [] => trim_slash url | p => p end) /\ g_path q <> [] /\
+  g_meth q = h_meth h /\ g_meth q <> [] /\ h_ser h <> [] /\ g_payload q = body.
+Proof. exact gateway_forwards_what_was_sent. Qed.
+
+(* JSON-RPC: "service.path.Method" is split at its last dot - the service path may contain dots - and a method
+   name without a dot, or whose only dot comes first, is rejected *)
+Theorem C19_jsonrpc_split_at_last_dot : forall p m, p <> [] -> has_byte 46 m = false ->
+  jsonrpc_split (p ++ 46 :: m) = Some (p, m).
+Proof. exact jsonrpc_split_at_last_dot. Qed.
+Theorem C19_jsonrpc_rejects_no_service : forall s,
+  has_byte 46 s = false \/ (exists m, s = 46 :: m /\ has_byte 46 m = false) -> jsonrpc_split s = None.
+Proof. exact jsonrpc_split_rejects. Qed.
+
+(* non-vacuity: seq 2^64-1, type 4, metadata with separators, blanks and non-ASCII bytes in keys and values *)
+Example C19_header_level_nonvacuous :
+  let q := mkGReq 18446744073709551615 false true 4 1 [([97;38;61], [32;195;188;37]); ([98], [])] [65;46;66] [77] [] in
+  wf_greq q /\ gateway_front (to_http q) [47] [1;2;3] = Some (mkGReq 18446744073709551615 false true 4 1 (g_meta q) [65;46;66] [77] [1;2;3])
+  /\ gateway_front (mkGHdr [120] [] [] [49] [] [] [] [65] [77]) [47] [] = None.
+Proof.
+  cbv zeta. split.
+  - unfold wf_greq. cbn [g_seq g_ser g_comp g_meta]. repeat split; try (vm_compute; reflexivity).
+    + repeat constructor; cbn; intuition discriminate.
+    + repeat constructor; cbn; lia.
+  - split; vm_compute; reflexivity.
+Qed.
+
 Print Assumptions C19_http_ingress_equals_native.
 Print Assumptions C19_malformed_rejected.
+Print Assumptions C19_gateway_builds_the_request_that_was_sent.
+Print Assumptions C19_metadata_query_round_trip.
+Print Assumptions C19_gateway_rejects_non_numeric_id.
+Print Assumptions C19_gateway_rejects_unparsable_metadata.
+Print Assumptions C19_header_level_malformed_never_reaches_a_handler.
+Print Assumptions C19_gateway_forwards_what_was_sent.
+Print Assumptions C19_jsonrpc_split_at_last_dot.
+Print Assumptions C19_jsonrpc_rejects_no_service.
